@@ -193,6 +193,7 @@ func checkC03(c *Ctx) {
 	mw := c.konst("server/store/types", "ModeWrite")
 	self := c.konst("server/store/types", "ModeCSelf")
 	r.Check(constAndIsZero(self, mw), "C03.6-const-modes", "ModeCSelf & ModeWrite == 0", c.P.Pos(self.Pos()), "self/search default access has no W", "ModeCSelf contains the write bit: me/fnd topics would accept publishes")
+	c.checkPauseBeforeStoreDelete()
 }
 
 // recordFromMapParam: base is (an alloc holding / an extract of) a lookup in map field `m` keyed
